@@ -220,10 +220,14 @@ class Run:
                             k2 = (d - cT).constval()          # not(cond - c < 0)  <=>  cond >= c
                             if k2 is not None and not pol: lower = -k2.re
                         except Unknown: pass
-                    if rx is not None and rx.im == 0 and lower is not None and rx.re * lower >= 1:
+                    from fractions import Fraction as _Fr
+                    if rx is not None and rx.im == 0 and rx.re <= _Fr(1, 10 ** 15) and kw.get("hermitian") is None:
+                        cut = None          # the documented default cut-off (1e-15) or smaller: same function as the plain call
+                    elif rx is not None and rx.im == 0 and lower is not None and rx.re * lower >= 1:
                         return Mismatch(f"pinv(T, rcond={cut!r}) is reached only for cond(T) > {lower}: with rcond*cond >= 1 the smallest singular direction is always "
                                         "discarded, so H is not the solution of T H = S and one input is silently not subtracted")
-                    return Opaque("pinv with an explicit cut-off is the inverse only while cond(T) < 1/rcond")
+                    if cut is not None:
+                        return Opaque("pinv with an explicit cut-off is the inverse only while cond(T) < 1/rcond")
                 run.assumed.add("pinv(T) = inverse(T) (T invertible: the generic branch)")
                 if len(a0.shape) != 2 or a0.shape[0] != a0.shape[1]: return Mismatch("pinv of non-square")
                 n_ = a0.shape[0]
